@@ -32,10 +32,14 @@ def scope(tier, seed):
     if tier == 'quick':
         return {'A': 'all 148 labelled K(<=2) x all 8964 formulas of size<=2',
                 'N': 'all 148 labelled K(<=2) x %d formulas with a 3-ary and/or' % len(spaces.nary_ctl()),
+                'G4': 'all 50625 total graphs on 4 states x {p everywhere, p missing in one state} x '
+                      '{EG p, AF not p, E[p U not p], A[not p R p]}',
                 'B': '3836 iso-representatives of K(3) x 144 formulas size<=1',
                 'C': 'size-3 block %d of %d x 82 representatives of K(<=2)' % (seed % NB3, NB3)}
     return {'A': 'all 148 labelled K(<=2) x all 8964 formulas of size<=2',
             'N': 'all 148 labelled K(<=2) x %d formulas with a 3-ary and/or' % len(spaces.nary_ctl()),
+            'G4': 'all 50625 total graphs on 4 states x {p everywhere, p missing in one state} x '
+                  '{EG p, AF not p, E[p U not p], A[not p R p]}',
             'B': 'all 21952 labelled K(3) x 144 formulas size<=1',
             'C': 'size-3 blocks {%d..%d} mod %d x 82 representatives of K(<=2)'
                  % (seed % NB3, (seed + 7) % NB3, NB3),
@@ -49,6 +53,8 @@ def plan(tier, seed):
         sh.append(['A', i])
     for lo, hi in chunks(148, 4):
         sh.append(['N', lo, hi])
+    for lo, hi in chunks(50625, 1024):
+        sh.append(['G4', lo, hi])
     if tier == 'quick':
         for lo, hi in chunks(3836, 48):
             sh.append(['Brep', lo, hi])
@@ -112,6 +118,27 @@ def run_shard(shard, tier, seed, acc):
             acc.violation('structure-modified', kcase(k), None, None)
         acc.sample({'k': k.to_json(), 'formulas': 'all of size<=2', 'example':
                     spaces.fstr(spaces.ctl_by_size(2)[1234])})
+        return
+    if kind == 'G4':
+        # every total graph on 4 states (the smallest size with an SCC plus a later-visited node
+        # pointing into a non-root member), p everywhere / missing in exactly one state, the
+        # operators whose evaluation goes through SCCs and backward reachability
+        P = spaces.P
+        NP = ('not', P)
+        full = [('E', ('G', P)), ('A', ('F', NP)), ('E', ('U', P, NP)), ('A', ('R', NP, P))]
+        for succ in itertools.islice(spaces.graphs_total(4), shard[1], shard[2]):
+            if deadline_passed():
+                acc.capped()
+                return
+            k = spaces.K(4, succ, [('p',)] * 4)
+            Kl = lib.to_kripke(k)
+            for f in full[:2]:
+                check_one(k, Kl, f, acc)
+            for miss in range(4):
+                k = spaces.K(4, succ, [() if i == miss else ('p',) for i in range(4)])
+                Kl = lib.to_kripke(k)
+                for f in full:
+                    check_one(k, Kl, f, acc)
         return
     if kind == 'N':
         forms = spaces.nary_ctl()
